@@ -2,7 +2,10 @@
 """Applies a seeded breaking change (seeded/<id>/patch.diff) to /repo's working tree, runs the
 registered checks against it, records which of them report a violation, and restores /repo.
 
-  python3 tools/seedrun.py seeded/<id> [--props C01,C05|all] [--tier quick|thorough]
+  python3 tools/seedrun.py seeded/<id> [--props C01,C05|all] [--tier quick|thorough] [--jobs N]
+
+With --jobs N the checks of one seed run N at a time (check.py is safe to run concurrently: builds
+are serialised by file locks, scratch files carry the process id).
 
 Nothing is committed to /repo; evidence of these runs goes to work/seed-evidence, not evidence/."""
 import json, os, subprocess, sys, time
@@ -14,7 +17,7 @@ def sh(cmd, **kw):
 
 def main():
     seed = os.path.abspath(sys.argv[1])
-    props, tier = None, "quick"
+    props, tier, jobs = None, "quick", 1
     a = sys.argv[2:]
     while a:
         if a[0] == "--props":
@@ -22,6 +25,9 @@ def main():
             a = a[2:]
         elif a[0] == "--tier":
             tier = a[1]
+            a = a[2:]
+        elif a[0] == "--jobs":
+            jobs = int(a[1])
             a = a[2:]
         else:
             a = a[1:]
@@ -39,7 +45,7 @@ def main():
     results = {}
     env = dict(os.environ, VERIF_EVIDENCE_DIR=os.path.join(V, "work", "seed-evidence"))
     try:
-        for p in props:
+        def one(p):
             t0 = time.time()
             r = subprocess.run(["python3", os.path.join(V, "tools", "check.py"), p, "--tier", tier],
                                capture_output=True, text=True, cwd=V, env=env)
@@ -53,11 +59,26 @@ def main():
                             replay_text = open(tok[7:]).read()[:1500]
                         except Exception:
                             pass
-            results[p] = {"exit": r.returncode, "violation": viol, "summary": summ, "seconds": round(time.time() - t0, 1),
-                          "replay_head": replay_text}
             print(p, "exit", r.returncode, (viol[0] if viol else ""), flush=True)
+            return p, {"exit": r.returncode, "violation": viol, "summary": summ, "seconds": round(time.time() - t0, 1),
+                       "replay_head": replay_text}
+        if jobs > 1 and len(props) > 1:
+            # the first check alone: it builds the harness and regenerates the tables for this tree
+            p0, v0 = one(props[0])
+            results[p0] = v0
+            from concurrent.futures import ThreadPoolExecutor
+            with ThreadPoolExecutor(max_workers=jobs) as ex:
+                for p, v in ex.map(one, props[1:]):
+                    results[p] = v
+            results = {p: results[p] for p in props}
+        else:
+            for p in props:
+                p, v = one(p)
+                results[p] = v
     finally:
         sh(f"git -C {REPO} checkout -- .")
+        # files a change ADDED (new modules) are untracked: remove them too
+        sh(f"git -C {REPO} clean -fdq -- src tests examples")
         sh(f"python3 {os.path.join(V, 'tools', 'translate.py')}")
     detected = [p for p, v in results.items() if v["exit"] != 0]
     out = {"seed": os.path.basename(seed), "target_property": target, "tier": tier, "detected_by": detected,
